@@ -10,7 +10,8 @@
 (*   main        for node in extremityNodes(g): visit(node) ; eg.Wait()    *)
 (*   coordinator select { ctx.Done -> return ; node <- nodeCh -> expect--; *)
 (*                        for adj in adjacentNodes(node): visit(adj) }     *)
-(*   worker n    [skip] visitor ; t.done ; nodeCh <- n ; return err        *)
+(*   worker n    [skip | cancelled] visitor ; t.done ; nodeCh <- n ;       *)
+(*               return err   (cancel precedes the release of the slot)    *)
 (*   visit(n)    ready(n) [mu] ; enter(n) [mu] ; eg.Go(worker n) (blocks   *)
 (*               while the errgroup has limit+1 goroutines)                *)
 (***************************************************************************)
@@ -142,9 +143,10 @@ CSpawned == /\ pcC = "spawned" /\ pcC' = "iter"
             /\ UNCHANGED <<cfgv, status, chan, expect, sem, cancelled, egErr, mainv, cTodo, cCur, pcW, visits, ret>>
 
 \* ---------------------------------------------------------------- worker goroutine of node n
-WStart(n) == /\ pcW[n] = "start"                        \* skip test, then the visitor is invoked
-             /\ IF Skip(n) THEN pcW' = [pcW EXCEPT ![n] = "after"] /\ UNCHANGED visits
-                ELSE pcW' = [pcW EXCEPT ![n] = "visiting"] /\ visits' = [visits EXCEPT ![n] = @ + 1]
+WStart(n) == /\ pcW[n] = "start"                        \* skip test and cancellation test, then the visitor is invoked
+             /\ IF Skip(n) \/ cancelled                         \* once cancelled no new visit starts (the worker returns ctx.Err())
+                  THEN pcW' = [pcW EXCEPT ![n] = "after"] /\ UNCHANGED visits
+                  ELSE pcW' = [pcW EXCEPT ![n] = "visiting"] /\ visits' = [visits EXCEPT ![n] = @ + 1]
              /\ UNCHANGED <<cfgv, status, chan, expect, sem, cancelled, egErr, mainv, cordv, ret>>
 WReturn(n) == /\ pcW[n] = "visiting"                    \* the visitor returns (error iff n \in fails)
               /\ pcW' = [pcW EXCEPT ![n] = "after"]
@@ -161,7 +163,7 @@ WSend(n) == /\ pcW[n] = "send"                          \* nodeCh <- n (buffered
 WExit(n) == /\ pcW[n] = "exit"                          \* goroutine returns: slot released, first error cancels
             /\ pcW' = [pcW EXCEPT ![n] = "gone"]
             /\ sem' = sem - 1
-            /\ IF n \in fails /\ ~Skip(n)
+            /\ IF n \in fails /\ visits[n] = 1                  \* its visitor ran and returned an error
                  THEN /\ cancelled' = TRUE
                       /\ egErr' = IF egErr = 0 THEN n ELSE egErr
                  ELSE UNCHANGED <<cancelled, egErr>>
